@@ -110,12 +110,19 @@ def main(tier_: str) -> int:
         sods = [0, 1, 59, 3599, 43200, 86399]
         uss = [0, 1, 9, 10, 99, 1000, 100000, 123456, 500000, 999999, 7, 70, 700001]
         offs = [0, 60, -300, 330, 345, -720, 840, 1, -1]
-        for dd in days:
-            for sod in sods:
-                for us in uss:
-                    for off in offs:
-                        if tier_ == 'quick' and rng.random() < 0.6:
-                            continue
+        combos = [(dd, sod, us, off) for dd in days for sod in sods for us in uss for off in offs
+                  if not (tier_ == 'quick' and rng.random() < 0.6)]
+        # the microsecond field on its own: every value below 3000, every millisecond boundary +-1 and a seeded sample (quick);
+        # all 10^6 values (thorough) - one day / second / offset each
+        sweep = set(range(3000)) | {k * 1000 + e for k in range(1000) for e in (0, 1, 999)} | {rng.randrange(10**6) for _ in range(3000)}
+        if tier_ == 'thorough':
+            sweep = set(range(10**6))
+        for us in sorted(sweep):
+            combos.append((days[us % len(days)], sods[us % len(sods)], us, offs[us % len(offs)]))
+        if True:
+            if True:
+                if True:
+                    for dd, sod, us, off in combos:
                         local = datetime.datetime(dd.year, dd.month, dd.day) + datetime.timedelta(seconds=sod, microseconds=us)
                         if off == 0:
                             tz: Any = UTC()
@@ -196,7 +203,7 @@ def main(tier_: str) -> int:
             'timecode_lines': len(lines) - ndur - ndt,
             'samples': [lines[3], lines[ndur + 5], lines[-1]],
             'bounds': 'durations: every millisecond boundary +-1 us (and +-500) x 9 whole-second parts, as timedelta/float/str; thorough adds all '
-                      '10^6 fractions x 2 parts and 50k random values up to 3 years; date-times: 8 days x 6 seconds x 13 microseconds x 9 '
-                      'offsets; timecodes: 17 timescales 1..10^7',
+                      '10^6 fractions x 2 parts and 50k random values up to 3 years; date-times: 8 days x 6 seconds x 13 microseconds x 9 offsets plus a sweep of the microsecond field (quick: <3000, ms boundaries, 3000 random; thorough: all 10^6); '
+                      'timecodes: 17 timescales 1..10^7',
         })
     return out.finish('model_checking')
